@@ -100,7 +100,13 @@ def run(rng, tier, want=('C01', 'C10', 'C11', 'C12', 'C13', 'C14')):
                 # ---- C14 operands untouched
                 if 'C14' in want:
                     bad = [i for i, (u, x) in enumerate(zip(us, arrs)) if not numpy.array_equal(u.data, x)]
-                    yield 'C14', op.name, case, ('operand %s modified' % bad if bad else None)
+                    f14 = 'operand %s modified' % bad if bad else None
+                    # apart from the operations that are views in NumPy as well (indexing, transposition, reshape, real/imag part), the result is
+                    # a new polynomial: one that is (or shares memory with) an operand is overwritten by the next in-place update of either
+                    if f14 is None and not op.view and not op.name.startswith(('reshape', 'real', 'imag', 'getitem', 'transpose')):
+                        outs_ = r if isinstance(r, (tuple, list)) else (r,)
+                        if any(isinstance(o, U) and any(o is u or numpy.shares_memory(o.data, u.data) for u in us) for o in outs_): f14 = 'the result is (or shares memory with) an operand'
+                    yield 'C14', op.name, case, f14
                 # ---- C10 zeroth coefficient / shape like NumPy
                 if 'C10' in want and op.npf is not None:
                     fail = None
